@@ -2268,12 +2268,18 @@ func (p *Parser) evaluateComparison(ctx context) (Expression, error) {
 	if err != nil {
 		return nil, err
 	}
-	operatorToken := p.peek()
-	operator := operatorToken.Value()
 
-	if operatorToken.Type() == lexer.COMPARE_OPERATOR {
+	// Comparison operators share one precedence level and are left-associative
+	// (a < b == c is (a < b) == c), therefore keep appending in a loop.
+	for {
+		operatorToken := p.peek()
+		operator := operatorToken.Value()
+
+		if operatorToken.Type() != lexer.COMPARE_OPERATOR {
+			break
+		}
 		p.eat() // Eat operator token.
-		rightExpression, err := p.evaluateComparison(ctx)
+		rightExpression, err := p.evaluateAddition(ctx)
 
 		if err != nil {
 			return nil, err
@@ -2289,7 +2295,7 @@ func (p *Parser) evaluateComparison(ctx context) (Expression, error) {
 		if !slices.Contains(allowedOperators, operator) {
 			return nil, p.expectedError(fmt.Sprintf(`valid %s operator but got "%s"`, leftType.String(), operator), operatorToken)
 		}
-		return NewComparison(leftExpression, operator, rightExpression), nil
+		leftExpression = NewComparison(leftExpression, operator, rightExpression)
 	}
 	return leftExpression, nil
 }
